@@ -994,6 +994,24 @@ def _excludes_self(ctx, v: FuncView, node_name: str, depth: int = 0):
         if rid in removal or (removal and not v.cfg.reaches_without(v.cfg.entry, rid, removal)):
             out.append((r, "ok"))
             continue
+        # the set may come out of a memo kept on the object: then it is what an earlier call stored there - fine when every
+        # store into that memo (in this function) happens after the node was taken out
+        memo_reads = []
+        for x in walk_no_nested(v.fi.node):
+            base = None
+            if isinstance(x, ast.Call) and isinstance(x.func, ast.Attribute) and x.func.attr in ("get", "pop", "setdefault"):
+                base = x.func.value
+            elif isinstance(x, ast.Subscript) and isinstance(x.ctx, ast.Load):
+                base = x.value
+            if isinstance(base, ast.Attribute) and is_self_attr(base) and base.attr.startswith("_") and v.table_of(base) is None:
+                memo_reads.append(base.attr)
+        if memo_reads:
+            stores = [x for x in walk_no_nested(v.fi.node) if isinstance(x, ast.Assign) and any(isinstance(t, ast.Subscript) and isinstance(t.value, ast.Attribute) and is_self_attr(t.value) and t.value.attr in memo_reads for t in x.targets)]
+            if stores and removal and all(not v.cfg.reaches_without(v.cfg.entry, _cfgid(v, st_), removal) for st_ in stores):
+                out.append((r, "ok"))
+                continue
+            out.append((r, "unknown"))
+            continue
         # the set may be finished by a helper that is handed the node
         status = "violation"
         for c in [x for x in ast.walk(r.value) if isinstance(x, ast.Call)] + [d.value for d in walk_no_nested(v.fi.node) if isinstance(d, ast.Assign) and isinstance(d.value, ast.Call) and isinstance(r.value, ast.Name) and any(isinstance(t, ast.Name) and t.id == r.value.id for t in d.targets)]:
@@ -1210,3 +1228,75 @@ def check_layer_registry(ctx, res: Result):
         sid = _cfgid(v, st.at)
         ids = {_cfgid(v, o.at) for o in adds}
         res.check(bool(adds) and v.passes_through(sid, ids), "P-LAYERREG", f, norm(st.node), "_existing_layers", "a record is created without registering its layer (edge_overlap iterates the registered layers)", _where(v, st.node))
+
+
+# ----------------------------------------------------------------------------- keyed memos on the object
+def check_memo_keys(ctx, res: Result, cls: str, rule="K-MEMOKEY"):
+    """A private dict attribute that is none of the declared tables and is filled by queries (`self._cache[key] = value`) is
+    a keyed memo.  All accesses address it in the same units: a component filed as an ORDER is not looked up / dropped as a
+    SIZE (the entry that should be invalidated would stay)."""
+    from .kinds import Atom, Tup, Union, strip_none, unrole, _Top
+
+    res.rules.setdefault(rule, "a keyed cache kept on the object is addressed in the same units everywhere (the key filed by the query and the key dropped by the mutators agree component by component)")
+    methods = ctx.methods(cls)
+    sites = {}  # attr -> [(fi, node, key expr, 'store' | 'access')]
+    for fi in methods.values():
+        v = ctx.view(fi)
+        for n in walk_no_nested(fi.node):
+            base, key, how = None, None, None
+            if isinstance(n, ast.Subscript) and isinstance(n.value, ast.Attribute):
+                base, key, how = n.value, n.slice, ("store" if isinstance(n.ctx, ast.Store) else "access")
+            elif isinstance(n, ast.Call) and isinstance(n.func, ast.Attribute) and n.func.attr in ("get", "pop", "setdefault") and isinstance(n.func.value, ast.Attribute) and n.args:
+                base, key, how = n.func.value, n.args[0], "access"
+            elif isinstance(n, ast.Compare) and len(n.ops) == 1 and isinstance(n.ops[0], (ast.In, ast.NotIn)) and isinstance(n.comparators[0], ast.Attribute):
+                base, key, how = n.comparators[0], n.left, "access"
+            if base is None or not is_self_attr(base) or not base.attr.startswith("_") or base.attr.startswith("__") or v.table_of(base) is not None:
+                continue
+            sites.setdefault(base.attr, []).append((fi, n, key, how))
+    n_checked = 0
+    for attr, ss in sorted(sites.items()):
+        stores = [s_ for s_ in ss if s_[3] == "store" and s_[0].name != "__init__"]
+        if not stores:
+            continue
+
+        def comps(fi, key):
+            k = strip_none(ctx.view(fi).kind(key))
+            return list(k.items) if isinstance(k, Tup) else [k]
+
+        def atoms(k):
+            k = strip_none(k)
+            if isinstance(k, Union):
+                return {unrole(m).name for m in k.members if isinstance(unrole(m), Atom)}
+            k = unrole(k)
+            return {k.name} if isinstance(k, Atom) else set()
+
+        ref = None
+        for fi, n, key, _ in stores:
+            c = comps(fi, key)
+            ref = c if ref is None else ([a for a in ref] if len(ref) == len(c) else ref)
+        ref_atoms = [set() for _ in ref]
+        for fi, n, key, _ in stores:
+            c = comps(fi, key)
+            if len(c) == len(ref):
+                for i, k in enumerate(c):
+                    ref_atoms[i] |= atoms(k)
+        for fi, n, key, how in ss:
+            if how == "store" and fi.name != "__init__":
+                continue
+            c = comps(fi, key)
+            if len(c) != len(ref):
+                continue
+            n_checked += 1
+            bad = None
+            for i, k in enumerate(c):
+                a = atoms(k) - {"NONE"}
+                r_ = ref_atoms[i] - {"NONE"}
+                if a and r_ and (a - r_) and ({"ORDER", "SIZE", "TIME", "LAYER", "NODE", "EID", "WEIGHT"} & (a - r_)):
+                    bad = (i, sorted(a - r_), sorted(r_))
+            v = ctx.view(fi)
+            if bad:
+                res.violation(rule, fi.short, norm(n)[:120], f"{attr}:component{bad[0]}", f"self.{attr} is filled under keys whose component {bad[0]} is {'/'.join(bad[2])}; here it is addressed with {'/'.join(bad[1])}: the entry meant is another one (a stale entry stays, or a lookup never hits)", loc(fi, n))
+            else:
+                res.ok(rule, fi.short, norm(n)[:120], f"{attr}:units", loc(fi, n))
+    if n_checked == 0:
+        res.ok(rule, cls, "no keyed cache on the object", "scan", ctx.prog.cls(cls).module.relpath)
